@@ -180,7 +180,9 @@ def shrink(prop, scenario, tape_sparse, signature, budget_s=45.0):
     def fails(sc, tp):
         try:
             r = replay_case(prop, sc, tp)
-        except HarnessError:
+        except Exception:
+            # a shrunk candidate the harness cannot run is simply not a
+            # smaller failing case
             return None
         for sig, _d in r.violations:
             if sig == signature:
@@ -230,7 +232,14 @@ def shrink(prop, scenario, tape_sparse, signature, budget_s=45.0):
         again = True
         while again and time.time() < t_end:
             again = False
-            for cand_sc in prop.shrink_scenario(best_sc):
+            try:
+                cands = list(prop.shrink_scenario(best_sc))
+            except Exception as e:     # a shrinker bug must not cost the
+                sys.stderr.write(      # violation its report
+                    'shrinker of %s failed (%r); reporting the case '
+                    'unshrunk further\n' % (prop.ID, e))
+                break
+            for cand_sc in cands:
                 if time.time() > t_end:
                     break
                 r = fails(cand_sc, best_tp)
